@@ -242,6 +242,7 @@ func (i *Identity) Unwrap(stanzas []*age.Stanza) (fileKey []byte, err error) {
 
 	// Phase 2: plugin responds with various commands and a file key
 	sr := format.NewStanzaReader(bufio.NewReader(conn))
+	var gotFileKey bool
 ReadLoop:
 	for {
 		s, err := i.ui.readStanza(i.name, sr)
@@ -262,9 +263,10 @@ ReadLoop:
 			if n != 0 {
 				return nil, fmt.Errorf("malformed file-key stanza: unexpected index")
 			}
-			if fileKey != nil {
+			if gotFileKey {
 				return nil, fmt.Errorf("received duplicated file-key stanza")
 			}
+			gotFileKey = true
 
 			fileKey = s.Body
 
